@@ -24,6 +24,44 @@ def U(n):
     return M.unparse(n)
 
 
+def stmt_of(fn, node):
+    """the statement of fn that contains node"""
+    for st in ast.walk(fn):
+        if isinstance(st, ast.stmt) and not isinstance(st, (ast.FunctionDef, ast.If, ast.With, ast.For, ast.While, ast.Try)) and any(node is x for x in ast.walk(st)):
+            return st
+    return node if isinstance(node, ast.stmt) else None
+
+
+COPIERS = ('dict', 'list', 'set', 'tuple', 'sorted', 'frozenset', 'copy.copy', 'copy.deepcopy', 'deepcopy', 'copy')
+
+
+def copied_shared(fn, stmt, shared):
+    """copies of shared containers that flow into the value assigned by stmt (through the locals of fn)"""
+    defs = {}
+    for a in ast.walk(fn):
+        if isinstance(a, ast.Assign) and isinstance(a.targets[0], ast.Name):
+            defs.setdefault(a.targets[0].id, []).append(a.value)
+    st = stmt if isinstance(stmt, ast.Assign) else stmt_of(fn, stmt)
+    if not isinstance(st, ast.Assign):
+        return []
+    out, todo, seen = [], [st.value], set()
+    while todo:
+        e = todo.pop()
+        for n in ast.walk(e):
+            if isinstance(n, ast.Call):
+                nm = M.call_name(n) or ''
+                args = [U(a_) for a_ in n.args]
+                if (nm in COPIERS and any(a_.startswith('self.') and a_[5:] in shared for a_ in args)) or \
+                        (nm.endswith('.copy') and nm.startswith('self.') and nm[5:-5] in shared):
+                    out.append(U(n))
+            if isinstance(n, (ast.ListComp, ast.DictComp, ast.SetComp)) and any(U(g.iter).startswith('self.') and U(g.iter)[5:].split('.')[0] in shared for g in n.generators):
+                out.append(U(n)[:40])
+            if isinstance(n, ast.Name) and n.id in defs and n.id not in seen:
+                seen.add(n.id)
+                todo.extend(defs[n.id])
+    return out
+
+
 def entries_from(tree, lm):
     """thread entry points of CommandManager: whatever Controller forwards to, plus the solver hook"""
     ctl = M.find_class(tree, 'Controller')
@@ -196,6 +234,31 @@ def main(chk):
         chk.decide(ok, 'waiter-is-woken', inst, node=w.node, file=CT, func=w.func,
                    detail_bad='no other method changes %s and then notifies %s under the lock: the waiter can never proceed' % (pred, w.lock),
                    detail_ok='%s change(s) %s then notify %s' % (who, pred, w.lock))
+        # ... and does so on EVERY path after the change: an early return between the state change and the notification leaves the waiter asleep with a true predicate
+        for m in who:
+            fn_m = lm.meths[m]
+            gm = C.build_cfg(fn_m)
+            # only a change that can END the wait needs a wake-up: for `while not self.x` that is a write of something truthy, for `while self.x` (a non-empty container)
+            # a removal / a falsy value
+            waits_for_truthy = isinstance(loop.test, ast.UnaryOp) and isinstance(loop.test.op, ast.Not)
+
+            def can_end(x):
+                st_ = stmt_of(fn_m, x.node)
+                if isinstance(st_, ast.Assign) and isinstance(st_.value, ast.Constant):
+                    return bool(st_.value.value) == waits_for_truthy
+                if x.how in ('add', 'append', 'insert', 'update', 'extend', 'setitem'):
+                    return waits_for_truthy
+                if x.how in ('remove', 'discard', 'pop', 'clear', 'popleft'):
+                    return not waits_for_truthy
+                return True
+            wr_nodes = [gm.node_of(stmt_of(fn_m, x.node)) for x in lm.writes if x.func == m and x.attr in pred and can_end(x)]
+            nt_nodes = [gm.node_of(stmt_of(fn_m, x.node)) for x in lm.ops if x.func == m and x.lock == w.lock and x.op in ('notify', 'notify_all', 'notifyAll')]
+            wr_nodes = [x for x in wr_nodes if x is not None]
+            nt_nodes = [x for x in nt_nodes if x is not None]
+            okp = bool(wr_nodes) and bool(nt_nodes) and all(gm.must_pass(wn, gm.exit, nt_nodes) for wn in wr_nodes)
+            chk.decide(okp, 'waiter-is-woken', '%s:every-path-of-%s' % (inst, m), node=fn_m, file=CT, func=m,
+                       detail_bad='%s changes %s but some path from that change to its return does not notify %s (e.g. an early return): the thread waiting in %s() is never woken although '
+                                  'its predicate became true' % (m, pred, w.lock, w.func), detail_ok='every path after the change notifies %s' % w.lock)
 
     # ---- 3. locksets (frozen table)
     for attr, lock in sorted(LOCKSET.items()):
@@ -205,6 +268,13 @@ def main(chk):
         for x in ws:
             if (attr, x.func) in LOCKSET_EXEMPT:
                 chk.note('lockset exemption %s in %s: %s' % (attr, x.func, LOCKSET_EXEMPT[(attr, x.func)]))
+                # the exemption covers re-binding the container itself; replacing it by (something computed from) a copy, outside the lock, loses whatever another thread
+                # inserted between the copy and the re-binding
+                fn_x = lm.meths[x.func]
+                copies = copied_shared(fn_x, x.node, set(LOCKSET))
+                chk.decide(not copies, 'lockset', '%s@%s:rebinds-the-live-container' % (attr, x.func), node=x.node, file=CT, func=x.func,
+                           detail_bad='self.%s is re-bound, without %s, to a value computed from a copy (%s): an entry added by another thread between the copy and the re-binding is '
+                                      'lost (a queued command never runs, a pause request is forgotten)' % (attr, lock, ', '.join(copies)), detail_ok='the live container is passed through')
                 continue
             H = set(x.held) | set(eh[x.func])
             chk.decide(lock in H, 'lockset', '%s@%s:%s' % (attr, x.func, x.how), node=x.node, file=CT, func=x.func,
